@@ -187,6 +187,8 @@ def run(ck):
         for (n, xh, yh) in use:
             ck.count(json.dumps(["wrap", xh]), nontrivial=True)
     ck.oblige("correspondence:wrapped value in [0,pi) and congruent mod pi (interval)", "correspondence", wrap_ok, wdetail)
+    ck.oblige("oracle:angles wrapped into [0,pi), every other variable bit-identical, internals dropped (property text)", "correspondence",
+              not prop_bad, json.dumps({k: prop_bad[0][k] for k in ("name", "purge", "observed", "property_expects")}, default=str)[:300] if prop_bad else "")
     ck.samples += [{"name": m[1], "purge": m[0]["purge"], "fate": m[2]} for m in meta[:6]]
     if use:
         ck.samples.append({"wrapped": use[0][0], "x": float.fromhex(use[0][1]), "y": float.fromhex(use[0][2])})
